@@ -89,7 +89,8 @@ class CompArea:
 def build(img, *, cluster_bits, K=1, version=3, header_length=104, host_shift=0, l2_shift=0, copied=True, backing_name=None,
           comp_maximal=False, comp_base_cluster=None, file_id=0, data_fid=1, snapshots=(), extra_ext=(), name=None,
           incompat_extra=0, compression_type=None, crypt=0, size_bytes=None, reserved_l1_bits=0, l1_pad=0, lazy_desc=True,
-          meta_base=2, snap_table=None, comp_level=6, want_extents=False, datafile_ext=True, backing_fmt_ext=True, end_marker=True, l1_garbage=False):
+          meta_base=2, snap_table=None, comp_level=6, want_extents=False, datafile_ext=True, backing_fmt_ext=True, end_marker=True, l1_garbage=False,
+          hdr_extra=None):
     """img: abstract Qcow2 image {"ext","datafile","l2n","s","l1","l2","back","size"}; K real clusters per abstract
     cluster.  Returns (image VirtualFile, data VirtualFile|None, info)."""
     cs = 1 << cluster_bits
@@ -188,12 +189,14 @@ def build(img, *, cluster_bits, K=1, version=3, header_length=104, host_shift=0,
     hdr_len = 72 if version == 2 else header_length
     hb = header(version=version, cluster_bits=cluster_bits, size=size_b, l1_size=nl1_real, l1_offset=l1_cluster * cs,
                 refcount_offset=1 * cs, backing_name=bname, backing_offset=0, incompat=incompat, header_length=hdr_len,
-                compression_type=compression_type, crypt=crypt, extensions=xs, nb_snapshots=nsnap, snapshots_offset=snap_off, end_marker=end_marker)
+                compression_type=compression_type, crypt=crypt, extensions=xs, nb_snapshots=nsnap, snapshots_offset=snap_off, end_marker=end_marker,
+                **(hdr_extra or {}))
     if bname:
         boff = len(hb)
         hb = header(version=version, cluster_bits=cluster_bits, size=size_b, l1_size=nl1_real, l1_offset=l1_cluster * cs,
                     refcount_offset=1 * cs, backing_name=bname, backing_offset=boff, incompat=incompat, header_length=hdr_len,
-                    compression_type=compression_type, crypt=crypt, extensions=xs, nb_snapshots=nsnap, snapshots_offset=snap_off, end_marker=end_marker)
+                    compression_type=compression_type, crypt=crypt, extensions=xs, nb_snapshots=nsnap, snapshots_offset=snap_off, end_marker=end_marker,
+                **(hdr_extra or {}))
         assert len(hb) == boff
         hb += bname
     assert len(hb) <= cs, "header area exceeds the first cluster"
